@@ -44,6 +44,9 @@ class Observer:
         self.expect = []
         self.nlog = 0
         self.tags = set()
+        self.hist = dict(good=False, bad=False, server_error=False, welcome_error=False)
+        self.at_closed = None      # snapshot taken when client `ci` notified `closed`
+        self._stash = []
 
     def states(self):
         st = self.c.states()
@@ -111,12 +114,51 @@ class Observer:
                         decrypt_data(derive_phase_key(key, m["side"], phase), body)
                     except CryptoError:
                         good = 0
+            if side == "theirs" and automat_state_of(self.c, "_M") == "S2B" and phase not in self.c.boss._M._processed:
+                if phase != "pake" and self.c.boss._R._key is not None:
+                    if good:
+                        self.hist["good"] = True
+                    else:
+                        self.hist["bad"] = True
+                elif phase != "pake":
+                    self._stash.append((m["side"], phase, body))   # waits in Order until the key exists
+                elif phase == "pake" and pk == "nofield":
+                    self.hist["bad"] = True
             return f"msg {side} {hx(phase)} {good} {pk}"
         return None
 
     def record(self, line, outcome):
         self.lines.append(line)
+        before = self.c.states()
         self.expect.append(f"{outcome} | {self.states()} | {self.outputs()}")
+        self._history(line, before)
+        key = self.c.boss._R._key
+        if key is not None and self._stash:
+            for (sd, ph, body) in self._stash:
+                try:
+                    decrypt_data(derive_phase_key(key, sd, ph), body)
+                    self.hist["good"] = True
+                except CryptoError:
+                    self.hist["bad"] = True
+            self._stash = []
+
+    def _history(self, line, st):
+        """independent bookkeeping for the oracles (what the environment did to this client)"""
+        c = self.c
+        closing = st["B"] in ("S3_closing", "S4_closed")
+        if line == "error" and not self._was_closing:
+            self.hist["server_error"] = True
+        if line == "welcome 1" and not self._was_closing:
+            self.hist["welcome_error"] = True
+        self._was_closing = closing
+        if self.at_closed is None and any(n == "closed" for n, v in c.events):
+            self.at_closed = dict(server=self.W.server_facts(), connected=c.conn is not None,
+                                  terminator=st["T"], side=c.side,
+                                  opened_by_client=sorted({m["mailbox"] for m in self.W.sent[self.ci] if m.get("type") == "open"}),
+                                  sent_types=[m.get("type") for m in self.W.sent[self.ci]],
+                                  claimed_names=sorted({m.get("nameplate") for m in self.W.sent[self.ci] if m.get("type") == "claim"}))
+
+    _was_closing = False
 
     # ---- ops on the observed client -------------------------------------------
     def do(self, op):
@@ -206,6 +248,38 @@ class Observer:
             return "internal:" + nm
 
 
+def automat_state_of(client, attr):
+    from .util import automat_state
+    return automat_state(getattr(client.boss, attr))
+
+
+def finish(W, ob, ops, do_close=True, rounds=6):
+    """cooperative completion: the application closes (if it has not), the network heals, every
+    owed answer is delivered.  Recorded as ordinary ops."""
+    def emit(op):
+        ops.append(op)
+        return ob.do(op)
+    c0 = W.clients[0]
+    if do_close and not any(op[:3] == ["api", 0, "close"] for op in ops):
+        emit(["api", 0, "close"])
+    for _ in range(rounds * 40):
+        progressed = False
+        if c0.conn is None and c0.svc.started:
+            emit(["open", 0])
+            progressed = True
+        if c0.conn is not None and c0.conn.c2s:
+            emit(["c2s", 0])
+            progressed = True
+        if c0.conn is not None and c0.conn.s2c and not (c0.svc.stopping is not None and not c0.svc.stopping.called):
+            emit(["s2c", 0])
+            progressed = True
+        if c0.svc.stopping is not None and not c0.svc.stopping.called:
+            emit(["svc_stopped", 0])
+            progressed = True
+        if not progressed:
+            break
+
+
 def patch_world_internal_names(world):
     """make World._guard keep canonical exception names (NoTransition details)"""
     def _guard(c, f):
@@ -226,7 +300,17 @@ PROFILES = ["set", "allocate", "input", "set-mismatch", "lonely", "welcome-error
             "late-peer", "drops"]
 
 
-def guided(seed, n_ops, profile, welcome_error=None):
+def summarize(W, ob):
+    c0 = W.clients[0]
+    return dict(events=list(c0.events), internal=list(c0.internal), api_errors=list(c0.api_errors),
+                states=c0.states(), hist=dict(ob.hist), at_closed=ob.at_closed, connected=c0.conn is not None,
+                all_events=[list(c.events) for c in W.clients],
+                all_internal=[list(c.internal) for c in W.clients],
+                server=W.server_facts(), side=c0.side,
+                stop_pending=c0.svc.stopping is not None and not c0.svc.stopping.called)
+
+
+def guided(seed, n_ops, profile, welcome_error=None, finish_run=False):
     """Runs a guided random walk; returns (ops, observer, world-summary).  Deterministic in seed."""
     rng = random.Random(seed)
     we = "please upgrade" if profile == "welcome-error" else None
@@ -349,9 +433,10 @@ def guided(seed, n_ops, profile, welcome_error=None):
                         st["sent"] += 1
                 elif op[2] == "set_code":
                     st["peer_started"][op[1]] = True
-        summary = dict(events=list(W.clients[0].events), internal=list(W.clients[0].internal),
-                       api_errors=list(W.clients[0].api_errors), states=W.clients[0].states(),
-                       closed_by_app=st["closed"])
+        if finish_run:
+            finish(W, ob, ops)
+        summary = summarize(W, ob)
+        summary["closed_by_app"] = st["closed"] or finish_run
         return ops, ob, summary
 
 
@@ -367,6 +452,4 @@ def replay(ops, welcome_error=None, npeers=None, seed=0):
         ob = Observer(W, 0)
         for op in ops:
             ob.do(op)
-        summary = dict(events=list(W.clients[0].events), internal=list(W.clients[0].internal),
-                       api_errors=list(W.clients[0].api_errors), states=W.clients[0].states())
-        return ob, summary
+        return ob, summarize(W, ob)
